@@ -30,13 +30,25 @@ def alphabet(rng, addrs):
             ("tc19.3", F.df17(rng.randrange(4), a, F.me_velocity(3, 0, 0, 0, 1, rng.randrange(1024), 0, rng.randrange(1024), 0, 0, rng.randrange(512), 0, 0))),
             ("tc21", F.df17(rng.randrange(4), a, F.me_airpos(21, rng.randrange(4), 0, rng.randrange(4096), 0, 0, *gen.rand_cpr(rng)))),
             ("tc28", F.df17(rng.randrange(4), a, F.me_raw(28, rng.randrange(1 << 51)))),
+            # the edges of every type-code class
+            ("tc1", F.df17(rng.randrange(4), a, F.me_ident(1, rng.randrange(8), F.callsign_codes("EDG%03d" % rng.randrange(1000))))),
+            ("tc5", F.df17(rng.randrange(4), a, F.me_surface(5, rng.randrange(128), 1, rng.randrange(128), 0, rng.randrange(2), *gen.rand_cpr(rng)))),
+            ("tc8", F.df17(rng.randrange(4), a, F.me_surface(8, rng.randrange(128), 1, rng.randrange(128), 0, rng.randrange(2), *gen.rand_cpr(rng)))),
+            ("tc9", F.df17(rng.randrange(4), a, F.me_airpos(9, rng.randrange(4), 0, F.ac12_q1(rng.randrange(40, 2000)), 0, rng.randrange(2), *gen.rand_cpr(rng)))),
+            ("tc18", F.df17(rng.randrange(4), a, F.me_airpos(18, rng.randrange(4), 0, F.ac12_q1(rng.randrange(40, 2000)), 0, rng.randrange(2), *gen.rand_cpr(rng)))),
+            ("tc20", F.df17(rng.randrange(4), a, F.me_airpos(20, rng.randrange(4), 0, rng.randrange(4096), 0, 0, *gen.rand_cpr(rng)))),
+            ("tc22", F.df17(rng.randrange(4), a, F.me_airpos(22, rng.randrange(4), 0, rng.randrange(4096), 0, 0, *gen.rand_cpr(rng)))),
+            ("tc23", F.df17(rng.randrange(4), a, F.me_raw(23, rng.randrange(1 << 51)))),
             ("tc31", F.df17(rng.randrange(4), a, F.me_raw(31, rng.randrange(1 << 51)))),
         ]
     return out
 
+CLASS = {"tc1": "tc2", "tc5": "tc6", "tc8": "tc6", "tc9": "tc11e", "tc18": "tc11e", "tc20": "tc21", "tc22": "tc21", "tc23": "tc28"}
+
 def carried(kind, spec, impl_frame):
     """what the specification says the frame carries: {param: value or None (no valid value)}"""
     c = {}
+    kind = CLASS.get(kind, kind)
     if kind in ("df4", "df4z", "df20", "tc11e", "tc11o"):
         c["alt"] = None if spec["alt"] in ("-", "*") else spec["alt"]
     if kind == "tc6":
@@ -60,7 +72,7 @@ def carried(kind, spec, impl_frame):
 class C11(PropBase):
     id = "C11"
     lean_modules = ["SqModel.Props.C11"]
-    rule = ("sequences over an alphabet of 21 well-formed frame kinds x 2 aircraft (every supported format; altitude codes with Q=1), "
+    rule = ("sequences over an alphabet of 29 well-formed frame kinds (every supported format, both edges of every type-code class) x 2 aircraft (every supported format; altitude codes with Q=1), "
             "bounded-exhaustive for length 2 and sampled for length 3 (quick) / exhaustive length 3 (thorough), plus random sequences of "
             "50-300 frames with time steps; -U on/off; dump after every frame; compared with the model and with a reference fold "
             "('latest value of the last frame that carries the parameter, or blank/previous if it carried none') built from the Lean "
@@ -120,7 +132,7 @@ class C11(PropBase):
                                           {"ops": prefix_ops + gen.seg([fr]) * (1 if tag == "first" else 2) + ["dump"],
                                            "param": prm, "expected": v, "sequence": [alpha[x][0] for x in seq[:j + 1]]})
                                 return False
-                        elif prm in ("alt", "squawk", "ais", "cat", "gs", "vrate", "ver", "ss") or (prm == "track" and kind not in ("tc6",)):
+                        elif prm in ("alt", "squawk", "ais", "cat", "gs", "vrate", "ver", "ss") or (prm == "track" and CLASS.get(kind, kind) not in ("tc6",)):
                             want = cur.get(prm, "0/0" if prm == "cat" else ("32" if prm == "ss" else "-"))
                             if got != want:
                                 self.fail(rep, f"{kind} frame {fr} ({tag}) does not carry {prm} but changed it {want} -> {got}",
@@ -155,6 +167,6 @@ class C11(PropBase):
             if not self.run_seqs(rep, run, rng, alpha, longs, u, driver_ok, specs, implf):
                 return
         rep.exhaustive.append(f"all {len(pairs)} sequences of length 2 over the {n}-frame alphabet, both paths")
-        rep.sample({"alphabet_kinds": [k for k, _ in alpha[:21]], "example_sequence": [alpha[i][0] for i in triples[0]]})
+        rep.sample({"alphabet_kinds": [k for k, _ in alpha[:29]], "example_sequence": [alpha[i][0] for i in triples[0]]})
 
 PROP = C11()
